@@ -15,6 +15,7 @@ package js_lexer
 
 import (
 	"fmt"
+	"math/big"
 	"strconv"
 	"strings"
 	"unicode/utf8"
@@ -1723,6 +1724,25 @@ func (lexer *Lexer) scanIdentifierWithEscapes(kind identifierKind) (MaybeSubstri
 	}
 }
 
+// This converts the text of a binary, octal, or hexadecimal integer literal
+// that doesn't fit in 53 bits to the nearest float64 (with a single rounding)
+func parseLargeIntegerLiteral(text string, base int, isLegacyOctalLiteral bool) (float64, bool) {
+	if isLegacyOctalLiteral {
+		text = text[1:] // Skip over the leading "0"
+	} else {
+		text = text[2:] // Skip over the leading "0b" or "0o" or "0x"
+	}
+	if strings.IndexByte(text, '_') >= 0 {
+		text = strings.ReplaceAll(text, "_", "")
+	}
+	value, ok := new(big.Int).SetString(text, base)
+	if !ok {
+		return 0, false
+	}
+	result, _ := new(big.Float).SetInt(value).Float64()
+	return result, true
+}
+
 func (lexer *Lexer) parseNumericLiteralOrDot() {
 	// Number or dot
 	first := lexer.codePoint
@@ -1845,6 +1865,14 @@ func (lexer *Lexer) parseNumericLiteralOrDot() {
 		}
 
 		isBigIntegerLiteral := lexer.codePoint == 'n' && !hasDotOrExponent
+
+		// Slow path: the loop above rounds after every digit once the value needs
+		// more than 53 bits, but the value of a literal is rounded only once
+		if base != 10 && lexer.Number >= 1<<53 && !isBigIntegerLiteral && !isInvalidLegacyOctalLiteral {
+			if value, ok := parseLargeIntegerLiteral(lexer.rawIdentifier().String, int(base), lexer.IsLegacyOctalLiteral); ok {
+				lexer.Number = value
+			}
+		}
 
 		// Slow path: do we need to re-scan the input as text?
 		if isBigIntegerLiteral || isInvalidLegacyOctalLiteral {
